@@ -85,6 +85,13 @@ CHECKS = {
           '(e) the lazy product enumerates with the last component fastest, matching tuple comparison.',
   'note': 'Agreement of the power-set enumeration order with the set ordering and the lifetime of references into the lazy-element cache (possible finding F-C15-1, never replayed, not listed) are not decided.',
  },
+ 'C01': {
+  'technique': 'partial evaluation of the evaluator visitor methods on abstract operands (operator decision tables over finite complete domains) compared with textbook semantics; structural binder / fresh-name / enumeration-order rules',
+  'text': 'Decides the operator-level content of the property: every case of the evaluator switches (connectives incl. the short-circuit path, negation, + - x, the four comparisons on all order types, = and !=, union/intersection/difference/symmetric difference with operand order, '
+          'membership and subset predicates as formulas over eq/sub/in, both quantifiers over all body-value vectors of domains up to 3 incl. empty, the declarative set-builder) equals its definition; the set operations themselves equal their membership definitions; '
+          'every binder sets its slot before the body and counts iterations, ITERATE blocks re-evaluate their domain, inlined function bodies get never-reused fresh names, lazy products enumerate in comparison order, and no evaluation code reads the syntax variant.',
+  'note': 'The value of whole programs (nesting, recursion and imperative control flow, capture-freedom of argument substitution, equality of lazy and enumerated sets as values) is NOT decided; this is the structural part that is necessary for it. The oracle is set theory / propositional logic written in rules/C01.py, not the current code.',
+ },
 }
 
 _PENDING = 'rule module not yet implemented in this round; see DESIGN.md section 4 for the clauses planned'
